@@ -577,7 +577,8 @@ impl Template {
                 }
                 (Width, FirstStyle | Literal) if !buf.is_empty() => {
                     if let Some(TemplatePart::Placeholder { width, .. }) = parts.last_mut() {
-                        *width = Some(buf.parse().unwrap());
+                        let parsed = buf.parse();
+                        *width = Some(parsed.map_err(|_| TemplateError { next: c, state })?);
                         buf.clear();
                     }
                 }
